@@ -10,4 +10,5 @@ CONSTANTS
   Junk = 34
   EmitOn = TRUE
 INVARIANTS ResumeEqFresh Idempotent Stable OffsSane Emit EmitTwo EmitByte
+PROPERTY MonotoneCont
 CHECK_DEADLOCK FALSE
